@@ -161,9 +161,13 @@ def aliasOk (p1 p2 : String) (b a : SV) : Bool :=
     b.params.any (fun q => q.name == p.name && q.con == p.con))
 
 /-- must `aliasParameters(p1, p2)` be refused?  unknown name, `p2` already follows somebody
-(**refuse_twice**), or `p1` is `p2` / follows `p2` (**refuse_cycle**, any length) -/
+(**refuse_twice**), or `p1` is `p2` / follows `p2` (**refuse_cycle**, any length), or the listener id is in use -/
 def mustRefuse (p1 p2 : String) (b : SV) : Bool :=
-  !b.shorts.contains p1 || !b.shorts.contains p2 || b.isTarget p2 || p1 == p2 || b.follows p2 p1
+  !b.shorts.contains p1 || !b.shorts.contains p2 || b.isTarget p2 || p1 == p2 || b.follows p2 p1 ||
+  -- the listener id `__alias_<p2>_to_<p1>` is already the id of a link (for names free of "_to_" that
+  -- link is `p1 > p2` itself, i.e. `p2` is a target; with "_to_" inside names two different links can
+  -- share an id, and the repaired library refuses the second one)
+  b.links.any (fun l => aliasId l.1 l.2 == aliasId p1 p2)
 
 /-- **unalias_restores** after `unaliasParameters(p1, p2)` returned -/
 def unaliasOk (p1 p2 : String) (b a : SV) : Bool :=
@@ -296,14 +300,19 @@ from `checkStep` (whose clauses are theorems of the model): under a non-empty na
 looks the names of the map up *with* the namespace (cpp:138, 158) and hands them to the pair form,
 which prepends the namespace again (cpp:81): a map that names only existing parameters is answered
 `ParameterNotFoundException`.  The model transcribes it (`C03.bulk_namespace_witness`). -/
-def checkKnown (b : View) (op : Op) (out : Out) : Option String :=
+def checkKnown (b : View) (op : Op) (out : Out) (a : View) : Option String :=
   match op with
   | .bulk k es =>
     match b.get k with
     | some sb =>
       if sb.pre != "" && !es.isEmpty &&
           es.all (fun e => sb.params.any (fun p => p.name == e.1) && sb.params.any (fun p => p.name == e.2)) &&
-          out == .err .notfound then some "bulk_namespace" else none
+          out == .err .notfound then some "bulk_namespace"
+      -- second recorded defect (`C03-bulk-refused-partial`): the map form makes its links one by one and
+      -- equalises values only at the end; when it raises (cycle, double alias, unknown name, constraint) the
+      -- links already made stay, out of sync: "refused leaving everything unchanged" does not hold of it
+      else if out.isErr && a.get k != some sb then some "bulk_refused_unchanged"
+      else none
     | none => none
   | _ => none
 
